@@ -332,9 +332,13 @@ def _run_job(job, ckpt_dir):
                     # checkpoint of the directory and continues; every later sweep is still judged from the values,
                     # gain, history and iteration count the previous instance ended with
                     solver.checkpoint_manager.wait_until_finished()
-                    fresh = build_solver(job, ckpt_dir)
-                    fresh.load_checkpoint(ckpt_dir)
-                    solver = fresh
+                    if job["reload"].get("same_object"):
+                        # the solver object already in use re-loads its own latest checkpoint: nothing it holds changes
+                        solver.load_checkpoint(ckpt_dir)
+                    else:
+                        fresh = build_solver(job, ckpt_dir)
+                        fresh.load_checkpoint(ckpt_dir)
+                        solver = fresh
                 st = solver.solve(max_iterations=k)
                 results.append(st)
                 attach_returned(rec.events, st, solver)
@@ -556,7 +560,7 @@ def project(job, raw):
              "iter0": evs[0]["it"] if evs[0]["e"] == "solve_begin" else 0,
              "gain0": at(raw["gain0"]) or 0, "injected": bool(raw.get("injected")),
              "period": job.get("period", 0), "shuffle": bool(job.get("shuffle", False)),
-             "reloads": bool(job.get("reload")),
+             "reloads": bool(job.get("reload")) and not job["reload"].get("same_object"),
              "layout": raw["layout"], "ev": tr_events, "complete": complete,
              "cert": {"kind": "none"}, "scale_exp": E, "error": raw["error"],
              "inexact_at": inexact_at, "out_len": raw["out_len"],
